@@ -117,3 +117,22 @@ fn test_struct_repr_with_flags() {
         }
     );
 }
+
+#[test]
+fn test_struct_variance() {
+    // Test printing the variance attribute (nothing is printed if every
+    // parameter is invariant).
+    reparse_test!(
+        program {
+            #[variance(Covariant, Invariant, Contravariant)]
+            struct Foo<A, B, C> {}
+
+            #[variance(Invariant)]
+            struct Bar<A> {}
+
+            #[variance(Contravariant)]
+            #[upstream]
+            struct Baz<'a> {}
+        }
+    );
+}
